@@ -154,8 +154,9 @@ func init() {
 		p.NoJitter = 0.6
 		// joins, switches, departures and deletions arriving at the very instant pending
 		// updates are flushed by the frame tick
-		p.PBlock = 0.1
-		p.BlockOps = []string{"pose", "pose", "pose", "joiner", "joiner", "switch", "close", "entity_delete", "entity_add"}
+		p.PBlock = 0.15
+		p.MinUnlockYield = 0.5
+		p.BlockOps = []string{"pose", "pose", "pose", "joiner", "joiner", "joiner", "switch", "close", "entity_delete", "entity_add"}
 		p.ProbeAfterBlock = 0.6
 	}),
 		"distinct run digests with an accepted pose update", func(r *Result) bool { return trig(r, "op:pose", "deferred_burst") })
